@@ -120,12 +120,18 @@ def run(ctx):
     lr = base.methods.get("last_reward")
     if lr is None:
         raise AnalysisError("RewardObserver.last_reward vanished")
-    rets = [n for n in own_nodes(lr.node) if isinstance(n, ast.Return)]
-    t = ast.unparse(rets[0].value) if rets else ""
-    if "self.rewards[-1]" in t:
+    rets = [n for n in own_nodes(lr.node) if isinstance(n, ast.Return) and n.value is not None]
+    texts = [ctx.norm.xtext(lr, r.value) for r in rets]
+    # every return is the last list element or the constant for "no reward yet"
+    # (`x[-1] if x else 0`, or try: return x[-1] / except IndexError: return 0)
+    last = [r for r, t in zip(rets, texts) if "self.rewards[-1]" in t]
+    other = [r for r, t in zip(rets, texts) if "self.rewards[-1]" not in t and not isinstance(r.value, ast.Constant)]
+    if last and not other:
         chk.ok("R13.a", lr.qualname, lr.loc(), "last_reward = rewards[-1]")
     else:
-        chk.violation("R13.a", lr, rets[0] if rets else None, f"last_reward is `{t}`, not the last emitted reward")
+        bad = (other or rets or [None])[0]
+        t = ast.unparse(bad.value) if bad is not None else ""
+        chk.violation("R13.a", lr, bad, f"last_reward is `{t}`, not the last emitted reward")
 
     # ---------------------------------------------------------------- R13.b
     env = repo.find_class("SingleJobShopGraphEnv")
